@@ -113,14 +113,29 @@ def ensure_tools():
 
 
 def _prune_cache(keep):
+    """drop fact caches of trees that were not used for an hour (never one that may be in use by a parallel run)"""
     try:
-        ents = [e for e in os.listdir(CACHE) if e != keep and not e.endswith('.lock')]
+        ents = [e for e in os.listdir(CACHE) if e != keep and not e.endswith('.lock') and e != 'target-shared']
     except OSError:
         return
-    ents.sort(key=lambda e: os.path.getmtime(os.path.join(CACHE, e)))
-    # keep the few most recent trees (selftests switch between trees)
-    for e in ents[:-6] if len(ents) > 6 else []:
+    now = time.time()
+    old = []
+    for e in ents:
+        try:
+            age = now - os.path.getmtime(os.path.join(CACHE, e))
+        except OSError:
+            continue
+        if age > 3600:
+            old.append((age, e))
+    old.sort(reverse=True)
+    for age, e in old:
         subprocess.run(['rm', '-rf', os.path.join(CACHE, e)])
+        try:
+            for f in os.listdir(CACHE):
+                if f.startswith(e + '.') and f.endswith('.lock'):
+                    os.remove(os.path.join(CACHE, f))
+        except OSError:
+            pass
 
 
 def facts_dir(config, repo=None):
@@ -130,6 +145,10 @@ def facts_dir(config, repo=None):
     th = tree_hash(repo)
     d = os.path.join(CACHE, th, config)
     os.makedirs(os.path.join(CACHE, th), exist_ok=True)
+    try:
+        os.utime(os.path.join(CACHE, th), None)
+    except OSError:
+        pass
     lock = open(os.path.join(CACHE, th + '.' + config + '.lock'), 'w')
     fcntl.flock(lock, fcntl.LOCK_EX)
     try:
